@@ -482,10 +482,11 @@ impl<R: Clone + 'static> GlobalCache<R> {
         let key_s = key.to_string();
         let entry = CacheEntry::new(value);
 
-        // Acquire write lock for modification
+        // Hold the order lock across the store update and the queue update so that a
+        // concurrent clear / invalidation cannot separate the two (lock order: queue, then store)
+        let mut o = self.order.lock();
         self.map.write().insert(key_s.clone(), entry);
 
-        let mut o = self.order.lock();
         if let Some(pos) = o.iter().position(|k| *k == key_s) {
             o.remove(pos);
         }
@@ -658,10 +659,11 @@ impl<R: Clone + 'static + crate::MemoryEstimator> GlobalCache<R> {
         let key_s = key.to_string();
         let entry = CacheEntry::new(value);
 
-        // Acquire write lock for modification
+        // Hold the order lock across the store update and the queue update so that a
+        // concurrent clear / invalidation cannot separate the two (lock order: queue, then store)
+        let mut o = self.order.lock();
         self.map.write().insert(key_s.clone(), entry);
 
-        let mut o = self.order.lock();
         if let Some(pos) = o.iter().position(|k| *k == key_s) {
             o.remove(pos);
         }
@@ -842,8 +844,9 @@ impl<R: Clone + 'static + crate::MemoryEstimator> GlobalCache<R> {
     /// assert_eq!(cache.get("key2"), None);
     /// ```
     pub fn clear(&self) {
+        let mut o = self.order.lock();
         self.map.write().clear();
-        self.order.lock().clear();
+        o.clear();
     }
 }
 
